@@ -442,3 +442,6 @@ def run_case(case):
   if case["sub"] == "populate":
     return run_populate(case)
   return run_layer(case) if case["sub"] == "layer" else run_model(case)
+
+# (appended: sub-lattices added after the seeded waves; kept out of the original RULE text for readability)
+RULE = RULE + '; the depthwise class also with depth_multiplier 2; model programs also with frozen / statistics-only layers before unfolding and a second unfold after the folded kernels were replaced; populate histories'
